@@ -140,7 +140,14 @@ func (g G) planC02() *Plan {
 	// requests that name foreign consumer endpoints, bindings and indices themselves
 	for i := range p.Steps {
 		if m := p.Steps[i].Msg; m != nil && m.Kind == "sso" && g.chance(fmt.Sprintf("foreign%d", i), 35) {
-			switch g.intn(fmt.Sprintf("foreignk%d", i), 4) {
+			switch g.intn(fmt.Sprintf("foreignk%d", i), 6) {
+			case 4, 5:
+				// a consumer URL that merely extends a registered one
+				if c := &p.World.SPs[mod(m.SP, len(p.World.SPs))]; m.SP >= 0 && len(c.ACS) > 0 {
+					a := c.ACS[g.intn(fmt.Sprintf("foreignx%d", i), len(c.ACS))]
+					m.ACSURL = a.URL + g.pick(fmt.Sprintf("foreigns%d", i), ".evil.example/collect", "/../../redirect?to=https://evil.example/", "x", "?next=https://evil.example/", "/")
+					m.ProtoBind = g.pick(fmt.Sprintf("foreignpb%d", i), "", a.Binding)
+				}
 			case 0:
 				m.ACSURL = g.pick(fmt.Sprintf("foreignu%d", i), "https://evil.example/acs", "https://rogue.example/acs", "javascript:alert(1)")
 			case 1:
